@@ -86,6 +86,7 @@ TIERS = {
     "thorough": {"runs": 130000, "chunk": 1000, "shrink_budget": 60},
 }
 REACH_PROBES = [
+    "script_reloaded_while_faulty_run_suspended",
     "fault_in_trigger_function", "fault_in_service", "fault_in_expression", "fault_in_expression_direct",
     "fault_in_done_callback", "fault_in_created_task", "fault_in_shutdown_trigger", "fault_at_load_time",
     "fault_at_import_time", "fault_in_imported_module", "fault_in_comprehension", "fault_in_method",
@@ -339,6 +340,10 @@ def gen(rng: random.Random, tier: str) -> dict:
     else:
         n_fault = rng.choice([2, 2, 3])
     ops = []
+    # a function body that suspends after the occurrence was counted, so that its script can be reloaded while the
+    # run is in flight: the error raised afterwards is still that script's error and still has to be reported
+    nap = rng.choice([0, 0, 0.3]) if entry in ("service", "event_func", "state_func") else 0
+    spec["nap"] = nap
 
     def wit_ops():
         for _ in range(rng.choice([0, 1, 1, 2])):
@@ -353,6 +358,8 @@ def gen(rng: random.Random, tier: str) -> dict:
         if not burst_ok and "passes" in op:
             op = {"dt": 0.25}
         op.update({"kind": "fault", "blocking": rng.random() < 0.7})
+        if nap and rng.random() < 0.5:
+            op.update({"blocking": False, "reload_after": 0.1})
         ops.append(op)
         wit_ops()
     if not any(op["kind"] == "wit" for op in ops):
@@ -502,8 +509,9 @@ def render(scn: dict) -> dict:
     eframe = spec["entry_frame"]
     direct = bool(spec.get("direct")) and entry in EXPR_ENTRIES
     entry_in_mod = entry == "load_import"
-    ebody = (_fill_lines(eframe["pre"]) + ["sim.mark(\"pre\")"] + action_for(-1, entry_in_mod, toplevel_entry)
-             + _fill_lines(eframe["post"]))
+    nap_lines = [f"task.sleep({spec['nap']})"] if spec.get("nap") else []
+    ebody = (_fill_lines(eframe["pre"]) + ["sim.mark(\"pre\")"] + nap_lines
+             + action_for(-1, entry_in_mod, toplevel_entry) + _fill_lines(eframe["post"]))
     # ---- main file
     main = ["# c18 generated"] + [""] * spec.get("pad", 0)
     if uses_mod:
@@ -653,6 +661,15 @@ def simplify(scn: dict):
         cand = copy.deepcopy(scn)
         cand["spec"]["pad"] = 0
         yield cand
+    if spec.get("nap"):
+        cand = copy.deepcopy(scn)
+        cand["spec"]["nap"] = 0
+        yield cand
+    for i, op in enumerate(scn["ops"]):
+        if op.get("reload_after"):
+            cand = copy.deepcopy(scn)
+            cand["ops"][i].pop("reload_after")
+            yield cand
     if spec.get("cb_sibling") and spec["entry"] == "done_cb":
         cand = copy.deepcopy(scn)
         cand["spec"]["cb_sibling"] = None
@@ -1075,6 +1092,11 @@ def run(scn: dict) -> dict:
                     await w.call_service("pyscript", "c18_svc", {}, blocking=bool(op.get("blocking", True)))
                 except Exception as exc:  # pylint: disable=broad-except
                     obs["call_raised"].append(("fault", "c18_svc", repr(exc)[:160], w.vts()))
+            if op.get("reload_after") and spec.get("nap") and entry in ("service", "event_func", "state_func"):
+                await w.sleep(op["reload_after"])
+                w.probe("script_reloaded_while_faulty_run_suspended")
+                await w.reload(f"file.{MAIN}")
+                await w.settle(spec["nap"] + 0.2)
             elif entry in LOAD_ENTRIES:
                 obs["stimuli"] += 1
                 obs["reloads"] += 1
